@@ -701,9 +701,10 @@ def kernel_value_table(ctx, clause: str, what: str):
                 for inc in ((True, False) if eos is not None else (False,)):
                     for bf in (False, True):
                         for norm in (False, True):
-                            for prefix in ((False, True) if what == "distance" else (False,)):
+                            for prefix in ((False, True, "without the full prefix") if what == "distance" else (False,)):
                                 if costs[0] > 1000 and (bf or norm):
                                     continue
+                                excl = prefix == "without the full prefix"
                                 holder = {}
 
                                 def leaf(x, env):
@@ -727,7 +728,7 @@ def kernel_value_table(ctx, clause: str, what: str):
                                 ref, hyp = frac_array(refs).T, frac_array(hyps).T  # (R, N), (H, N)
                                 env.update(ref=ref.T if bf else ref, hyp=hyp.T if bf else hyp, eos=eos, include_eos=inc, batch_first=bf,
                                            ins_cost=costs[0], del_cost=costs[1], sub_cost=costs[2], warn=False, norm=norm, padding=PAD,
-                                           return_prf_dsts=prefix, return_mistakes=(what == "count"), return_mask=False, exclude_last=False)
+                                           return_prf_dsts=bool(prefix), return_mistakes=(what == "count"), return_mask=False, exclude_last=excl)
                                 kind, got = it.run(f.node, env)
                                 n_rows += 1
                                 if kind != "return" or not hasattr(got, "shape"):
@@ -743,7 +744,7 @@ def kernel_value_table(ctx, clause: str, what: str):
                                     div = (lambda v_, hl: v_) if not norm else (lambda v_, hl: (v_ / len(rs)) if rs else Fr(1 if hl > 0 else 0))
                                     if what == "distance":
                                         if prefix:
-                                            want_col = [div(tabs[k_][0], k_) if k_ <= len(hs) else Fr(PAD) for k_ in range(len(h_) + 1)]
+                                            want_col = [div(tabs[k_][0], k_) if k_ <= len(hs) - (1 if excl else 0) else Fr(PAD) for k_ in range(len(h_) + (0 if excl else 1))]
                                             ok = [x for x in g[:, n_].tolist()] == want_col
                                             shown = (g[:, n_].tolist(), want_col)
                                         else:
